@@ -372,7 +372,7 @@ def viMotionln (row : Int) (cmd : Int) : M (Int × Int) := do
     | some (p, _) => fin p
   else if c == 106 then fin (min (row + cnt) (n - 1))
   else if c == 107 then fin (max (row - cnt) 0)
-  else if c == 71 then fin (if s.arg1 != 0 || s.arg2 != 0 then cnt - 1 else n - 1)
+  else if c == 71 then fin (if s.arg1 != 0 || s.arg2 != 0 then min (cnt - 1) (n - 1) else n - 1)
   else if c == 72 then fin (min (s.ed.xtop + cnt - 1) (n - 1))
   else if c == 76 then fin (min (s.ed.xtop + s.xrows - 1 - cnt + 1) (n - 1))
   else if c == 77 then fin (min (s.ed.xtop + s.xrows / 2) (n - 1))
